@@ -31,11 +31,23 @@ Fixpoint has_active_start (k : kind) (j : journal) : bool :=
   | EOther :: j' => has_active_start k j'
   end.
 
+(* the post hooks' look-up of the operation's Start.  Whether a Start that is already followed by a
+   Complete/Abort of its kind is skipped comes from the source (Gen.GenRewrite.post_uses_active_start) *)
 Fixpoint find_start (k : kind) (j : journal) : option N :=
   match j with
   | [] => None
   | EStart k' o :: j' => if kind_eqb k k' then Some o else find_start k j'
-  | _ :: j' => find_start k j'
+  | EComplete k' _ :: j' | EAbort k' _ :: j' =>
+      if post_uses_active_start && kind_eqb k k' then None else find_start k j'
+  | EOther :: j' => find_start k j'
+  end.
+
+(* the look-up as it was before the repair: the newest Start, whatever follows it *)
+Fixpoint find_newest_start (k : kind) (j : journal) : option N :=
+  match j with
+  | [] => None
+  | EStart k' o :: j' => if kind_eqb k k' then Some o else find_newest_start k j'
+  | _ :: j' => find_newest_start k j'
   end.
 
 Record inv := mkInv {
@@ -46,7 +58,8 @@ Record inv := mkInv {
   i_before : bool;            (* state directory exists before git runs *)
   i_after : bool;             (* state directory exists after git ran *)
   i_exit_ok : bool;
-  i_dry_run : bool            (* --dry-run among the arguments *)
+  i_dry_run : bool;           (* --dry-run among the arguments *)
+  i_head_known : bool         (* the pre hook could resolve HEAD (it logs a Start only then) *)
 }.
 
 Inductive effect := NoEffect | Rewrite (k : kind) (orig : N).
@@ -54,8 +67,10 @@ Inductive effect := NoEffect | Rewrite (k : kind) (orig : N).
 (* pre hook: a new operation logs Start; the rebase hook also keeps the head in the process context *)
 Definition pre (j : journal) (i : inv) : journal * option N :=
   if i_before i && has_active_start (i_kind i) j then (j, None)
-  else (push (EStart (i_kind i) (i_head i)) j,
-        match i_kind i with Rebase => Some (i_head i) | CherryPick => None end).
+  else if i_head_known i then
+    (push (EStart (i_kind i) (i_head i)) j,
+     match i_kind i with Rebase => Some (i_head i) | CherryPick => None end)
+  else (j, None).
 
 Definition post (j : journal) (ctx : option N) (i : inv) : journal * effect :=
   if i_after i then (j, NoEffect)
